@@ -57,7 +57,7 @@ pub trait KeyT: Hash + Eq + Clone + Send + Sync + 'static + for<'a> From<&'a <Se
     fn intact(&self) -> bool;
 }
 
-pub trait ValT: Clone + Send + Sync + 'static {
+pub trait ValT: Clone + PartialEq + Send + Sync + 'static {
     const NAME: &'static str;
     const HAS_SERIAL: bool;
     fn make(v: u32) -> Self;
@@ -169,6 +169,11 @@ impl Drop for Val8 {
     }
 }
 pub const VAL_ID: u32 = u32::MAX - 1;
+impl PartialEq for Val8 {
+    fn eq(&self, o: &Val8) -> bool {
+        self.val == o.val
+    }
+}
 impl ValT for Val8 {
     const NAME: &'static str = "Val8";
     const HAS_SERIAL: bool = true;
@@ -209,6 +214,11 @@ impl Drop for Big200 {
     fn drop(&mut self) {
         sim().drop_serial(self.serial, VAL_ID);
         tick(Class::Drop);
+    }
+}
+impl PartialEq for Big200 {
+    fn eq(&self, o: &Big200) -> bool {
+        self.val == o.val
     }
 }
 impl ValT for Big200 {
@@ -252,6 +262,11 @@ impl Drop for Align64 {
     fn drop(&mut self) {
         sim().drop_serial(self.serial, VAL_ID);
         tick(Class::Drop);
+    }
+}
+impl PartialEq for Align64 {
+    fn eq(&self, o: &Align64) -> bool {
+        self.val == o.val
     }
 }
 impl ValT for Align64 {
